@@ -291,9 +291,9 @@ def window_start(m):
     return min((mu['at'] for mu in m.mutations), default=None)
 
 
-def plan_faults(events, r, l1, win, inv, tier, entry, agg=False):
+def plan_faults(events, r, l1, win, inv, tier, entry, agg=False, blocked=(), owin=()):
     """Which (k, exception name) pairs to inject for one recorded invocation."""
-    adm = [e for e in events[:r] if e['adm']]
+    adm = [e for e in events[:r] if e['adm'] and not any(lo <= e['i'] < hi for lo, hi in blocked)]
     l1ev = [e for e in adm if e['ckey'] in l1]
     l2ev = [e for e in adm if e['ckey'] not in l1]
     rr = random.Random(inv['l2_seed'])
@@ -319,6 +319,14 @@ def plan_faults(events, r, l1, win, inv, tier, entry, agg=False):
                 plan.append((e['i'], rr.choice(fam_b if n % 2 == 0 else fam_a), 'L2'))
     else:
         nl2 = 16 if tier == 'quick' else 120
+        # sites inside the window of any *other* environment variable the code mutates come
+        # first: every distinct site there once (a stage that restores it on success only)
+        prio = {}
+        for e in l2ev:
+            if any(lo <= e['i'] < hi for lo, hi, _ in owin):
+                prio.setdefault((e['caller'], e['line'], e['callee']), e)
+        for n, s_ in enumerate(sorted(prio)[:40 if tier == 'quick' else 400]):
+            plan.append((prio[s_]['i'], rr.choice(fam_a if n % 2 == 0 else fam_b), 'L2'))
         # stratify by call site (caller, line, callee): every distinct site once
         # before any site twice; in-window sites first 4:1
         inwin = [e for e in l2ev if win is not None and e['i'] >= win]
